@@ -55,6 +55,6 @@ def run(project, rep):
     rep.run(Z.z_r6_carrier_date, project, rep)
     rep.run(Z.z_r7_aware_values_kept, project, rep)
     from .. import rules_header as H
-    rep.rule("W-R8", "the header written for a version is of the kind the reader expects and the body is decoded with the codec the header declares (B-R1, B-R3, H-R2, H-R3)")
-    rep.run(H.b_rules, project, rep)
+    rep.rule("W-R8", "the header written for a version is of the kind the reader expects and the body is decoded with the codec the header declares (B-R1, B-R3, B-R6, H-R1..H-R3; the refusing side of the header classes is C12's)")
+    rep.run_only(("B-R1", "B-R3", "B-R6"), H.b_rules, project, rep)
     rep.run(H.h_rules, project, rep)
